@@ -11,6 +11,8 @@ Proof.
   - injection E as ->. apply N.eqb_refl.
   - apply andb_true_iff in E as [A B]. apply N.eqb_eq in A. apply Nat.eqb_eq in B. congruence.
   - injection E as -> ->. rewrite N.eqb_refl, Nat.eqb_refl. reflexivity.
+  - apply Nat.eqb_eq in E. congruence.
+  - injection E as ->. apply Nat.eqb_refl.
 Qed.
 
 Lemma fpath_eqb_refl p : fpath_eqb p p = true.
@@ -148,7 +150,7 @@ Proof. intros (L & B & I). repeat split; auto. Qed.
 
 (* ---------- invariant of quiescent states ---------- *)
 Definition temp_ctr (p : fpath) : nat :=
-  match p with FIndexTmp c | FIngest _ c => c | _ => 0%nat end.
+  match p with FIndexTmp c | FIngest _ c | FLayoutTmp c => c | _ => 0%nat end.
 
 (* Holds after every completed operation AND after every crash + reopen:
    - every reference of the tag resolver is also held by digest, and every digest held
@@ -164,7 +166,11 @@ Record Inv (s : st) : Prop := {
   inv_digs : forall n, In n (sdigs s) -> has (sfs s) (FBlob n);
   inv_temp : forall p, is_temp p = true -> (sctr s <= temp_ctr p)%nat -> files (sfs s) p = None;
   inv_index : exists l, read_index (sfs s) = Some l /\
-                        forall e, In e l -> In (fst e) (sdigs s)
+                        forall e, In e l -> In (fst e) (sdigs s);
+  (* a reference names one blob, and the names on disk are the ones in memory *)
+  inv_fun : forall r n n', In (r, n) (stags s) -> In (r, n') (stags s) -> n = n';
+  inv_named : exists l, read_index (sfs s) = Some l /\
+                        forall r n, In (n, Some r) l <-> In (r, n) (stags s)
 }.
 
 Lemma inv_tags s : Inv s -> forall r n, In (r, n) (stags s) -> has (sfs s) (FBlob n).
@@ -199,9 +205,18 @@ Proof.
   intros Ht e Hin. apply save_In in Hin as [(r & Hr)|Hn]; [now apply (Ht r)|exact Hn].
 Qed.
 
+Lemma save_tagged tags digs n r : In (n, Some r) (save tags digs) <-> In (r, n) tags.
+Proof.
+  unfold save. rewrite in_app_iff. split.
+  - intros [Hin|Hin].
+    + apply in_map_iff in Hin as ([r' n'] & E & Hin). cbn in E. injection E as -> ->. exact Hin.
+    + apply in_map_iff in Hin as (d & E & _). discriminate.
+  - intro Hin. left. apply in_map_iff. exists (r, n). split; [reflexivity|exact Hin].
+Qed.
+
 Lemma inv_good s : Inv s -> Good (sfs s).
 Proof.
-  intros [L B T D _ (l & Hl & Hs)]. split; [exact L|split; [exact B|]].
+  intros [L B T D _ (l & Hl & Hs) _ _]. split; [exact L|split; [exact B|]].
   exists l. split; [exact Hl|]. intros e Hin. apply D. now apply Hs.
 Qed.
 
@@ -272,7 +287,7 @@ Qed.
 Lemma inv_ctr fs tags digs c c' : (c <= c')%nat ->
   Inv (mkSt fs tags digs c) -> Inv (mkSt fs tags digs c').
 Proof.
-  intros Hc [L B T D Tm I]. constructor; try assumption.
+  intros Hc [L B T D Tm I F Nm]. constructor; try assumption.
   cbn [sfs sctr] in *. intros p Hp Hq. apply Tm; [exact Hp|lia].
 Qed.
 
@@ -291,6 +306,7 @@ Lemma idx_only_safe s tags' digs' :
   Inv s ->
   (forall r n, In (r, n) tags' -> In n digs') ->
   (forall n, In n digs' -> has (sfs s) (FBlob n)) ->
+  (forall r n n', In (r, n) tags' -> In (r, n') tags' -> n = n') ->
   let ms := idx_steps (sctr s) tags' digs' in
   let fs1 := apply ms (sfs s) in
   Inv (mkSt fs1 tags' digs' (S (sctr s))) /\
@@ -298,7 +314,7 @@ Lemma idx_only_safe s tags' digs' :
   (forall p, p <> FIndex -> is_temp p = false -> files fs1 p = files (sfs s) p) /\
   forall k, Recoverable H (sfs s) (apply (firstn k ms) (sfs s)) fs1.
 Proof.
-  intros I Ht Hd ms fs1.
+  intros I Ht Hd Hfun ms fs1.
   pose proof (inv_temp s I (FIndexTmp (sctr s)) eq_refl (le_n _)) as Hnone.
   destruct (idx_final (sctr s) tags' digs' (sfs s) Hnone) as (F1 & F2 & F3).
   fold ms in F1, F2, F3. fold fs1 in F1, F2, F3.
@@ -307,7 +323,7 @@ Proof.
   assert (RI : read_index fs1 = Some (shuffle (sctr s) (save tags' digs'))).
   { unfold read_index. rewrite F1. reflexivity. }
   assert (I1 : Inv (mkSt fs1 tags' digs' (S (sctr s)))).
-  { destruct I as [L B T D Tm Ix]. constructor; cbn [sfs stags sdigs sctr].
+  { destruct I as [L B T D Tm Ix Fu Nm]. constructor; cbn [sfs stags sdigs sctr].
     - destruct L as (f & Hf & Hc). exists f. split; [|exact Hc]. rewrite Fnt; [exact Hf|discriminate|reflexivity].
     - intros d f Hf. apply (B d f). rewrite <- Fnt; [exact Hf|discriminate|reflexivity].
     - exact Ht.
@@ -318,7 +334,10 @@ Proof.
         * intros ->. discriminate.
         * intros ->. rewrite fpath_eqb_refl in E. discriminate.
     - exists (shuffle (sctr s) (save tags' digs')). split; [exact RI|].
-      intros e Hin. apply shuffle_In in Hin. now apply (save_in_digs tags' digs'). }
+      intros e Hin. apply shuffle_In in Hin. now apply (save_in_digs tags' digs').
+    - exact Hfun.
+    - exists (shuffle (sctr s) (save tags' digs')). split; [exact RI|].
+      intros r n. rewrite shuffle_In. apply save_tagged. }
   split; [exact I1|]. split.
   { exists (shuffle (sctr s) (save tags' digs')). split; [exact RI|]. intro e. apply shuffle_In. }
   split; [exact Fnt|].
@@ -330,33 +349,33 @@ Proof.
 Qed.
 
 (* ---------- ingest: create the temp file, write, (chmod), close ---------- *)
-Definition ingest_pre (fs : FS) (t : fpath) (cont : list N) : list mstep :=
-  mkdirs fs ++ [Create t] ++ map (fun x => Write t (AChunk x)) cont.
+Definition ingest_pre (fs : FS) (d : N) (t : fpath) (cont : list N) : list mstep :=
+  mkdirs fs d ++ [Create t] ++ map (fun x => Write t (AChunk x)) cont.
 
-Lemma mkdirs_touch fs m p : In m (mkdirs fs) -> ~ touches m p.
+Lemma mkdirs_touch fs d m p : In m (mkdirs fs d) -> ~ touches m p.
 Proof.
   unfold mkdirs. intro Hin. apply in_app_or in Hin.
-  destruct (dirs fs DAlg), (dirs fs DIngest); cbn in Hin;
+  destruct (dirs fs (DAlg (alg_of d))), (dirs fs DIngest); cbn in Hin;
     destruct Hin as [Hin|Hin]; try contradiction;
     destruct Hin as [<-|[]]; cbn; tauto.
 Qed.
 
-Lemma ingest_pre_touch fs t cont m p : In m (ingest_pre fs t cont) -> touches m p -> p = t.
+Lemma ingest_pre_touch fs d t cont m p : In m (ingest_pre fs d t cont) -> touches m p -> p = t.
 Proof.
   unfold ingest_pre. intros Hin Ht. apply in_app_or in Hin as [Hin|Hin].
-  - exfalso. exact (mkdirs_touch fs m p Hin Ht).
+  - exfalso. exact (mkdirs_touch fs d m p Hin Ht).
   - apply in_app_or in Hin as [[<-|[]]|Hin]; [exact Ht|].
     apply in_map_iff in Hin as (x & <- & _). exact Ht.
 Qed.
 
-Lemma ingest_pre_content fs t cont :
+Lemma ingest_pre_content fs d t cont :
   files fs t = None ->
-  files (apply (ingest_pre fs t cont) fs) t = Some (mkFile (map AChunk cont) false).
+  files (apply (ingest_pre fs d t cont) fs) t = Some (mkFile (map AChunk cont) false).
 Proof.
   intro Hn. unfold ingest_pre. rewrite !apply_app.
-  assert (H0 : files (apply (mkdirs fs) fs) t = None).
-  { rewrite apply_frame; [exact Hn|]. intros m Hin. now apply (mkdirs_touch fs). }
-  set (fa := apply (mkdirs fs) fs) in *.
+  assert (H0 : files (apply (mkdirs fs d) fs) t = None).
+  { rewrite apply_frame; [exact Hn|]. intros m Hin. now apply (mkdirs_touch fs d). }
+  set (fa := apply (mkdirs fs d) fs) in *.
   assert (H1 : files (apply [Create t] fa) t = Some (mkFile [] false)).
   { unfold apply. cbn [fold_left apply1]. rewrite H0. cbn [files]. apply upd_same. }
   rewrite (apply_writes t cont _ [] false H1). reflexivity.
@@ -380,7 +399,7 @@ Proof. intros HA HB m Hin. apply in_app_or in Hin as [Hin|Hin]; [now apply HA|no
 Lemma push_bad_safe s d cont :
   Inv s ->
   let t := FIngest d (sctr s) in
-  let ms := ingest_pre (sfs s) t cont ++ [Close t; Unlink t] in
+  let ms := ingest_pre (sfs s) d t cont ++ [Close t; Unlink t] in
   let fs1 := apply ms (sfs s) in
   Inv (mkSt fs1 (stags s) (sdigs s) (S (sctr s))) /\
   (Agree s -> Agree (mkSt fs1 (stags s) (sdigs s) (S (sctr s)))) /\
@@ -389,7 +408,7 @@ Lemma push_bad_safe s d cont :
 Proof.
   intros I t ms fs1.
   assert (HT : only_touch ms t).
-  { apply only_touch_app; [intros m Hin p; now apply (ingest_pre_touch (sfs s) t cont)|].
+  { apply only_touch_app; [intros m Hin p; now apply (ingest_pre_touch (sfs s) d t cont)|].
     intros m [<-|[<-|[]]] p Hp; cbn in Hp; [contradiction|exact Hp]. }
   assert (Ft : files fs1 t = None).
   { unfold fs1, ms. rewrite apply_app. unfold apply at 1. cbn [fold_left apply1 files]. apply upd_same. }
@@ -400,13 +419,15 @@ Proof.
     - apply (only_touch_frame ms t); [exact HT|]. intros ->. rewrite fpath_eqb_refl in E. discriminate. }
   assert (RI : read_index fs1 = read_index (sfs s)) by (unfold read_index; now rewrite Fo).
   assert (I1 : Inv (mkSt fs1 (stags s) (sdigs s) (S (sctr s)))).
-  { destruct I as [L B T D Tm Ix]. constructor; cbn [sfs stags sdigs sctr].
+  { destruct I as [L B T D Tm Ix Fu Nm]. constructor; cbn [sfs stags sdigs sctr].
     - destruct L as (f & Hf & Hc). exists f. now rewrite Fo.
     - intros d' f Hf. apply (B d' f). now rewrite <- Fo.
     - exact T.
     - intros n Hin. apply (has_eq fs1 (sfs s)); [apply Fo|now apply D].
     - intros p Hp Hq. rewrite Fo. apply Tm; [exact Hp|lia].
-    - rewrite RI. exact Ix. }
+    - rewrite RI. exact Ix.
+    - exact Fu.
+    - rewrite RI. exact Nm. }
   split; [exact I1|]. split.
   { intros (l & Hl & He). exists l. cbn [sfs stags sdigs]. rewrite RI. now split. }
   split; [exact Fo|]. intro k.
@@ -432,7 +453,7 @@ Lemma push_good_safe s d cont (man : bool) :
   let c := sctr s in
   let t := FIngest d c in
   let digs' := if man then dig_add d (sdigs s) else sdigs s in
-  let A := ingest_pre (sfs s) t cont ++ [Chmod t; Close t] in
+  let A := ingest_pre (sfs s) d t cont ++ [Chmod t; Close t] in
   let IX := if man then idx_steps c (stags s) digs' else [] in
   let ms := A ++ Rename t (FBlob d) :: IX in
   let fs1 := apply ms (sfs s) in
@@ -446,12 +467,12 @@ Proof.
   set (X := mkFile (map AChunk cont) true).
   assert (Htmp : files fs0 t = None) by (exact (inv_temp s I t eq_refl (le_n _))).
   assert (HT : only_touch A t).
-  { apply only_touch_app; [intros m Hin p; now apply (ingest_pre_touch fs0 t cont)|].
+  { apply only_touch_app; [intros m Hin p; now apply (ingest_pre_touch fs0 d t cont)|].
     intros m [<-|[<-|[]]] p Hp; cbn in Hp; [exact Hp|contradiction]. }
   set (fsA := apply A fs0).
   assert (FAt : files fsA t = Some X).
   { unfold fsA, A. rewrite apply_app. unfold apply at 1. cbn [fold_left apply1].
-    rewrite (ingest_pre_content fs0 t cont Htmp). cbn [files fcontent fro]. apply upd_same. }
+    rewrite (ingest_pre_content fs0 d t cont Htmp). cbn [files fcontent fro]. apply upd_same. }
   set (fsB := apply1 fsA (Rename t (FBlob d))).
   assert (FB : forall p, files fsB p = if fpath_eqb p (FBlob d) then Some X else files fs0 p).
   { intro p. unfold fsB. cbn [apply1]. rewrite FAt. cbn [files].
@@ -464,7 +485,7 @@ Proof.
   assert (FBb : forall d', files fsB (FBlob d') = if d' =? d then Some X else files fs0 (FBlob d')).
   { intro d'. now rewrite FB. }
   assert (IB : Inv (mkSt fsB (stags s) (sdigs s) c)).
-  { destruct I as [L B T D Tm Ix]. fold fs0 in L, B, T, D, Tm, Ix. fold c in Tm.
+  { destruct I as [L B T D Tm Ix Fu Nm]. fold fs0 in L, B, T, D, Tm, Ix, Nm. fold c in Tm.
     constructor; cbn [sfs stags sdigs sctr].
     - destruct L as (f & Hf & Hc). exists f. rewrite FB. cbn. now split.
     - intros d' f. rewrite FBb. destruct (d' =? d) eqn:E.
@@ -474,6 +495,9 @@ Proof.
     - intros n Hin. unfold has. rewrite FBb. destruct (n =? d); [discriminate|]. now apply D.
     - intros p Hp Hq. rewrite FB. destruct p; try discriminate; cbn; now apply Tm.
     - destruct Ix as (l & Hl & He). exists l. split; [|exact He].
+      unfold read_index. rewrite FB. cbn. exact Hl.
+    - exact Fu.
+    - destruct Nm as (l & Hl & He). exists l. split; [|exact He].
       unfold read_index. rewrite FB. cbn. exact Hl. }
   assert (Hsplit : forall k,
      (exists k', apply (firstn k ms) fs0 = apply (firstn k' A) fs0) \/
@@ -496,7 +520,7 @@ Proof.
       - exact (inv_digs _ IB n Hin). }
     assert (Htd' : forall r n, In (r, n) (stags s) -> In n digs').
     { intros r n Hin. apply dig_add_incl. exact (inv_tagdig s I r n Hin). }
-    destruct (idx_only_safe (mkSt fsB (stags s) (sdigs s) c) (stags s) digs' IB Htd' Hd')
+    destruct (idx_only_safe (mkSt fsB (stags s) (sdigs s) c) (stags s) digs' IB Htd' Hd' (inv_fun s I))
       as (I1 & A1 & Fnt & _).
     cbn [sfs sctr] in I1, A1, Fnt. fold IX in I1, A1, Fnt. rewrite <- F1 in I1, A1, Fnt.
     split; [exact I1|]. split; [intros _; exact A1|]. split.
@@ -539,7 +563,7 @@ Lemma unlink_inv fs tags digs c c' d :
   Inv (mkSt fs tags digs c) -> ~ In d digs ->
   Inv (mkSt (apply1 fs (Unlink (FBlob d))) tags digs c').
 Proof.
-  intros Hc [L B T D Tm Ix] Hd. cbn [sfs stags sdigs sctr] in *.
+  intros Hc [L B T D Tm Ix Fu Nm] Hd. cbn [sfs stags sdigs sctr] in *.
   assert (FU : forall p, files (apply1 fs (Unlink (FBlob d))) p = upd (files fs) (FBlob d) None p)
     by reflexivity.
   constructor; cbn [sfs stags sdigs sctr].
@@ -553,6 +577,9 @@ Proof.
     + intro E. injection E as E. subst n. contradiction.
   - intros p Hp Hq. rewrite FU, upd_other; [apply Tm; [exact Hp|lia]|]. intros ->. discriminate.
   - destruct Ix as (l & Hl & He). exists l. split; [|exact He].
+    unfold read_index. rewrite FU, upd_other by discriminate. exact Hl.
+  - exact Fu.
+  - destruct Nm as (l & Hl & He). exists l. split; [|exact He].
     unfold read_index. rewrite FU, upd_other by discriminate. exact Hl.
 Qed.
 
@@ -607,6 +634,8 @@ Proof.
       - exact (inv_tagdig s I r n Hin).
       - apply negb_true_iff. now apply N.eqb_neq. }
     { intros n Hin. apply (inv_digs s I). now apply Hd'. }
+    { intros r n n' H1 H2. apply Ht' in H1 as [H1 _]. apply Ht' in H2 as [H2 _].
+      exact (inv_fun s I r n n' H1 H2). }
     fold IX in IM, AM, Fnt, RM. set (fsM := apply IX (sfs s)) in *.
     destruct (exists_file (sfs s) (FBlob d)) eqn:Ex.
     + assert (F1 : fs1 = apply1 fsM (Unlink (FBlob d))).
@@ -681,6 +710,18 @@ Proof.
   now apply filter_In in Hin as [Hin _].
 Qed.
 
+Lemma tag_set_fun r d tags :
+  (forall r0 n n', In (r0, n) tags -> In (r0, n') tags -> n = n') ->
+  forall r0 n n', In (r0, n) (tag_set r d tags) -> In (r0, n') (tag_set r d tags) -> n = n'.
+Proof.
+  intros Hf r0 n n' H1 H2. unfold tag_set in H1, H2. cbn [In] in H1, H2. rewrite filter_In in H1, H2.
+  destruct H1 as [E1|[H1 N1]], H2 as [E2|[H2 N2]].
+  - congruence.
+  - injection E1 as <- <-. cbn in N2. rewrite N.eqb_refl in N2. discriminate.
+  - injection E2 as <- <-. cbn in N1. rewrite N.eqb_refl in N1. discriminate.
+  - exact (Hf r0 n n' H1 H2).
+Qed.
+
 Lemma op_safe s o :
   Inv s ->
   Inv (runop s o) /\
@@ -689,7 +730,7 @@ Lemma op_safe s o :
               = spec_blobs_step H (fun x => exists_file (sfs s) (FBlob x)) o d') /\
   forall k, Recoverable H (sfs s) (crash_fs H shuffle false false s o k) (sfs (runop s o)).
 Proof.
-  intro I. unfold run_op, crash_fs, op_steps. destruct o as [d cont man|d r|r|d|].
+  intro I. unfold run_op, crash_fs, op_steps. destruct o as [d cont man|d r|r|d| |live].
   - (* Push *)
     cbn [op_mem spec_blobs_step]. destruct (exists_file (sfs s) (FBlob d)) eqn:Ex.
     + destruct (noop_safe s _ _ I eq_refl eq_refl) as (N1 & NA & N2 & N3).
@@ -712,6 +753,7 @@ Proof.
       * intros r' n Hin. apply tag_set_In in Hin as [E|Hin]; [injection E as -> ->; apply dig_add_self|].
         apply dig_add_incl. exact (inv_tagdig s I r' n Hin).
       * intros n Hin. apply dig_add_In in Hin as [->|Hin]; [exact Ex|now apply (inv_digs s I)].
+      * apply tag_set_fun. exact (inv_fun s I).
       * split; [exact I1|split; [intros _; exact A1|split; [|exact R1]]]. intro d'. cbn [sfs]. unfold exists_file.
         rewrite F1; [reflexivity|discriminate|reflexivity].
     + destruct (noop_safe s _ _ I eq_refl eq_refl) as (N1 & NA & N2 & N3).
@@ -723,6 +765,9 @@ Proof.
       * intros r' n Hin. unfold tag_del in Hin. apply filter_In in Hin as [Hin _].
         exact (inv_tagdig s I r' n Hin).
       * apply (inv_digs s I).
+      * intros r' n n' H1 H2. unfold tag_del in H1, H2.
+        apply filter_In in H1 as [H1 _]. apply filter_In in H2 as [H2 _].
+        exact (inv_fun s I r' n n' H1 H2).
       * split; [exact I1|split; [intros _; exact A1|split; [|exact R1]]]. intro d'. cbn [sfs]. unfold exists_file.
         rewrite F1; [reflexivity|discriminate|reflexivity].
     + destruct (noop_safe s _ _ I eq_refl eq_refl) as (N1 & NA & N2 & N3).
@@ -732,9 +777,19 @@ Proof.
     cbn [op_mem spec_blobs_step]. exact (delete_safe s d I).
   - (* SaveIndex *)
     cbn [op_mem spec_blobs_step].
-    destruct (idx_only_safe s (stags s) (sdigs s) I (inv_tagdig s I) (inv_digs s I)) as (I1 & A1 & F1 & R1).
+    destruct (idx_only_safe s (stags s) (sdigs s) I (inv_tagdig s I) (inv_digs s I) (inv_fun s I)) as (I1 & A1 & F1 & R1).
     split; [exact I1|split; [intros _; exact A1|split; [|exact R1]]]. intro d'. cbn [sfs]. unfold exists_file.
     rewrite F1; [reflexivity|discriminate|reflexivity].
+  - (* Forget *)
+    cbn [op_mem spec_blobs_step].
+    set (digs' := filter (fun x => memN x live || existsb (fun e => snd e =? x) (stags s)) (sdigs s)).
+    destruct (idx_only_safe s (stags s) digs' I) as (I1 & A1 & F1 & R1).
+    + intros r n Hin. apply filter_In. split; [exact (inv_tagdig s I r n Hin)|].
+      apply orb_true_iff. right. apply existsb_exists. exists (r, n). split; [exact Hin|apply N.eqb_refl].
+    + intros n Hin. apply filter_In in Hin as [Hin _]. now apply (inv_digs s I).
+    + exact (inv_fun s I).
+    + split; [exact I1|split; [intros _; exact A1|split; [|exact R1]]]. intro d'. cbn [sfs]. unfold exists_file.
+      rewrite F1; [reflexivity|discriminate|reflexivity].
 Qed.
 
 Lemma inv_init : Inv init.
@@ -746,6 +801,8 @@ Proof.
   - intros n [].
   - intros p Hp _. destruct p; try discriminate; reflexivity.
   - exists []. split; [reflexivity|]. intros e [].
+  - intros r n n' [].
+  - exists []. split; [reflexivity|]. intros r n. cbn. tauto.
 Qed.
 
 Lemma agree_init : Agree init.
@@ -783,15 +840,6 @@ Corollary crash_tags_before_or_after h o k :
 Proof. intros s fsk. apply rec_same_tags. apply crash_safe. Qed.
 
 (* ---------- completed operations: the directory refines the sequential specification ---------- *)
-Lemma save_tagged tags digs n r : In (n, Some r) (save tags digs) <-> In (r, n) tags.
-Proof.
-  unfold save. rewrite in_app_iff. split.
-  - intros [Hin|Hin].
-    + apply in_map_iff in Hin as ([r' n'] & E & Hin). cbn in E. injection E as -> ->. exact Hin.
-    + apply in_map_iff in Hin as (d & E & _). discriminate.
-  - intro Hin. left. apply in_map_iff. exists (r, n). split; [reflexivity|exact Hin].
-Qed.
-
 Lemma tag_get_none r tags : tag_get r tags = None -> forall n, ~ In (r, n) tags.
 Proof.
   unfold tag_get. destruct (find (fun e => fst e =? r) tags) eqn:E; [discriminate|].
@@ -818,7 +866,7 @@ Proof.
   intros I [Rb Rt]. split.
   - intro d'. destruct (op_safe s o I) as (_ & _ & E & _). rewrite E.
     apply spec_blobs_ext. exact Rb.
-  - unfold run_op. destruct o as [d cont man|d r|r|d|]; cbn [op_mem spec_tags_step].
+  - unfold run_op. destruct o as [d cont man|d r|r|d| |live]; cbn [op_mem spec_tags_step].
     + (* Push: the tag map does not change *)
       destruct (exists_file (sfs s) (FBlob d)); [exact Rt|].
       destruct (negb (H cont =? d)); [exact Rt|]. destruct man; exact Rt.
@@ -848,6 +896,7 @@ Proof.
       * split.
         -- intros [Eq _]. exact Eq.
         -- intro Eq. injection Eq as <-. split; [reflexivity|now rewrite E].
+    + exact Rt.
     + exact Rt.
 Qed.
 
@@ -889,8 +938,8 @@ Proof. intros Hm Hms x [<-|Hin]; [exact Hm|now apply Hms]. Qed.
 Lemma all_tc_app c a e : all_tc c a -> all_tc c e -> all_tc c (a ++ e).
 Proof. intros Ha He m Hin. apply in_app_or in Hin as [Hin|Hin]; [now apply Ha|now apply He]. Qed.
 
-Lemma all_tc_mkdirs c fs : all_tc c (mkdirs fs).
-Proof. intros m Hin p Hp. exfalso. exact (mkdirs_touch fs m p Hin Hp). Qed.
+Lemma all_tc_mkdirs c fs d : all_tc c (mkdirs fs d).
+Proof. intros m Hin p Hp. exfalso. exact (mkdirs_touch fs d m p Hin Hp). Qed.
 
 Lemma all_tc_writes c t cont : temp_ctr t = c -> all_tc c (map (fun x => Write t (AChunk x)) cont).
 Proof. intros Ht m Hin. apply in_map_iff in Hin as (x & <- & _). intros p Hp _. cbn in Hp. now subst p. Qed.
@@ -915,7 +964,7 @@ Ltac tc_solve :=
   repeat match goal with
   | |- all_tc _ [] => apply all_tc_nil
   | |- all_tc _ (index_steps _ _ _ _ _) => apply all_tc_idx
-  | |- all_tc _ (mkdirs _) => apply all_tc_mkdirs
+  | |- all_tc _ (mkdirs _ _) => apply all_tc_mkdirs
   | |- all_tc _ (map _ _) => apply all_tc_writes; reflexivity
   | |- all_tc _ (_ ++ _) => apply all_tc_app
   | |- all_tc _ (_ :: _) => apply all_tc_cons
@@ -924,13 +973,14 @@ Ltac tc_solve :=
 
 Lemma op_steps_tc s o : all_tc (sctr s) (steps s o).
 Proof.
-  unfold op_steps. destruct o as [d cont man|d r|r|d|]; cbn [op_mem].
+  unfold op_steps. destruct o as [d cont man|d r|r|d| |live]; cbn [op_mem].
   - destruct (exists_file (sfs s) (FBlob d)); [apply all_tc_nil|].
     destruct (H cont =? d); cbn [negb]; destruct man; tc_solve.
   - destruct (exists_file (sfs s) (FBlob d)); tc_solve.
   - destruct (tag_get r (stags s)); tc_solve.
   - destruct (existsb (fun e => snd e =? d) (stags s) || memN d (sdigs s));
       destruct (exists_file (sfs s) (FBlob d)); tc_solve.
+  - tc_solve.
   - tc_solve.
 Qed.
 
@@ -965,11 +1015,84 @@ Proof.
     + intros e [<-|Hin]; [apply A3; apply dig_add_self|now apply A4].
 Qed.
 
+Lemma tag_set_iff r d tags r' n :
+  In (r', n) (tag_set r d tags) <-> (r' = r /\ n = d) \/ (r' <> r /\ In (r', n) tags).
+Proof.
+  unfold tag_set. cbn [In]. rewrite filter_In. cbn [fst]. split.
+  - intros [E|[Hin Hn]]; [left; injection E as <- <-; now split|right].
+    apply negb_true_iff in Hn. apply N.eqb_neq in Hn. now split.
+  - intros [[-> ->]|[Hn Hin]]; [now left|right]. split; [exact Hin|].
+    apply negb_true_iff. now apply N.eqb_neq.
+Qed.
+
+Lemma load_fun l : forall tags digs,
+  (forall r n n', In (r, n) tags -> In (r, n') tags -> n = n') ->
+  forall r n n', In (r, n) (fst (load l tags digs)) -> In (r, n') (fst (load l tags digs)) -> n = n'.
+Proof.
+  induction l as [|[x [r0|]] l IH]; intros tags digs Hf; cbn [load]; [exact Hf| |].
+  - apply IH. now apply tag_set_fun.
+  - now apply IH.
+Qed.
+
+Definition hasref (r : N) (l : list entry) : bool :=
+  existsb (fun e => match snd e with Some x => x =? r | None => false end) l.
+
+Lemma hasref_true r l : hasref r l = true -> exists n, In (n, Some r) l.
+Proof.
+  unfold hasref. intro E. apply existsb_exists in E as ([n [x|]] & Hin & E); [|discriminate].
+  cbn in E. apply N.eqb_eq in E. subst x. now exists n.
+Qed.
+
+Lemma hasref_false r l : hasref r l = false -> forall n, ~ In (n, Some r) l.
+Proof.
+  unfold hasref. intros E n Hin. pose proof (existsb_false _ _ E (n, Some r) Hin) as X.
+  cbn in X. rewrite N.eqb_refl in X. discriminate.
+Qed.
+
+(* with one blob per reference name in the index, loadIndex yields exactly its named entries *)
+Lemma load_named l : forall tags digs,
+  (forall r n n', In (n, Some r) l -> In (n', Some r) l -> n = n') ->
+  forall r n, In (r, n) (fst (load l tags digs)) <->
+              In (n, Some r) l \/ (In (r, n) tags /\ forall n', ~ In (n', Some r) l).
+Proof.
+  induction l as [|[x [r0|]] l IH]; intros tags digs Hf r n; cbn [load].
+  - cbn. split; [intro Hin; right; split; [exact Hin|intros n' []]|intros [[]|[Hin _]]; exact Hin].
+  - assert (Hf' : forall r n n', In (n, Some r) l -> In (n', Some r) l -> n = n').
+    { intros r1 n1 n2 H1 H2. apply (Hf r1); now right. }
+    rewrite (IH (tag_set r0 x tags) (dig_add x digs) Hf' r n). rewrite tag_set_iff. split.
+    + intros [Hin|[[[-> ->]|[Hn Hin]] Hno]].
+      * left. now right.
+      * left. now left.
+      * right. split; [exact Hin|]. intros n' [E|Hin']; [injection E as _ E; congruence|exact (Hno n' Hin')].
+    + intros [[E|Hin]|[Hin Hno]].
+      * injection E as <- <-. destruct (hasref r0 l) eqn:Hr.
+        -- apply hasref_true in Hr as (n' & Hin'). left.
+           assert (n' = x) by (apply (Hf r0); [now right|now left]). now subst n'.
+        -- right. split; [left; now split|]. now apply hasref_false.
+      * left. exact Hin.
+      * right. split.
+        -- right. split; [|exact Hin]. intros ->. apply (Hno x). now left.
+        -- intros n' Hin'. apply (Hno n'). now right.
+  - assert (Hf' : forall r n n', In (n, Some r) l -> In (n', Some r) l -> n = n').
+    { intros r1 n1 n2 H1 H2. apply (Hf r1); now right. }
+    rewrite (IH tags (dig_add x digs) Hf' r n). split.
+    + intros [Hin|[Hin Hno]]; [left; now right|right; split; [exact Hin|]].
+      intros n' [E|Hin']; [discriminate|exact (Hno n' Hin')].
+    + intros [[E|Hin]|[Hin Hno]]; [discriminate|now left|right; split; [exact Hin|]].
+      intros n' Hin'. apply (Hno n'). now right.
+Qed.
+
 Lemma reopen_inv s o k :
   Inv s -> Inv (reopen (crash_fs H shuffle false false s o k) (S (sctr s))).
 Proof.
-  intro I. destruct (op_safe s o I) as (_ & _ & _ & R).
-  destruct (R k) as (L & B & (l & Hl & He) & _).
+  intro I. destruct (op_safe s o I) as (I1 & _ & _ & R).
+  destruct (R k) as (L & B & (l & Hl & He) & RI & _).
+  assert (Hfl : forall r n n', In (n, Some r) l -> In (n', Some r) l -> n = n').
+  { destruct RI as [RI|RI]; rewrite Hl in RI.
+    - destruct (inv_named s I) as (l0 & Hl0 & Hn0). rewrite Hl0 in RI. injection RI as <-.
+      intros r n n' H1 H2. apply Hn0 in H1, H2. exact (inv_fun s I r n n' H1 H2).
+    - destruct (inv_named _ I1) as (l1 & Hl1 & Hn1). rewrite Hl1 in RI. injection RI as <-.
+      intros r n n' H1 H2. apply Hn1 in H1, H2. exact (inv_fun _ I1 r n n' H1 H2). }
   set (fsk := crash_fs H shuffle false false s o k) in *.
   unfold reopen. rewrite Hl.
   destruct (load_spec l [] []) as (A1 & A2 & _ & A4); [intros r n []|].
@@ -983,6 +1106,9 @@ Proof.
     + intros m Hin Ht. apply In_firstn in Hin.
       pose proof (op_steps_tc s o m Hin p Ht Hp) as E. lia.
   - exists l. split; [exact Hl|exact A4].
+  - apply load_fun. intros r n n' [].
+  - exists l. split; [exact Hl|]. intros r n. rewrite (load_named l [] [] Hfl r n).
+    split; [intro Hin; now left|intros [Hin|[[] _]]; exact Hin].
 Qed.
 
 Lemma inv_run_hop s x : Inv s -> Inv (run_hop H shuffle false false s x).
@@ -1018,10 +1144,10 @@ Lemma all_ipf_cons m ms : in_place_free m -> all_ipf ms -> all_ipf (m :: ms).
 Proof. intros Hm Hms x [<-|Hin]; [exact Hm|now apply Hms]. Qed.
 Lemma all_ipf_app a e : all_ipf a -> all_ipf e -> all_ipf (a ++ e).
 Proof. intros Ha He m Hin. apply in_app_or in Hin as [Hin|Hin]; [now apply Ha|now apply He]. Qed.
-Lemma all_ipf_mkdirs fs : all_ipf (mkdirs fs).
+Lemma all_ipf_mkdirs fs d : all_ipf (mkdirs fs d).
 Proof.
   unfold mkdirs. intros m Hin. apply in_app_or in Hin.
-  destruct (dirs fs DAlg), (dirs fs DIngest); cbn in Hin;
+  destruct (dirs fs (DAlg (alg_of d))), (dirs fs DIngest); cbn in Hin;
     destruct Hin as [Hin|Hin]; try contradiction; destruct Hin as [<-|[]]; exact I.
 Qed.
 Lemma all_ipf_writes t cont : is_temp t = true -> all_ipf (map (fun x => Write t (AChunk x)) cont).
@@ -1036,7 +1162,7 @@ Ltac ipf_solve :=
   repeat match goal with
   | |- all_ipf [] => apply all_ipf_nil
   | |- all_ipf (index_steps _ _ _ _ _) => apply all_ipf_idx
-  | |- all_ipf (mkdirs _) => apply all_ipf_mkdirs
+  | |- all_ipf (mkdirs _ _) => apply all_ipf_mkdirs
   | |- all_ipf (map _ _) => apply all_ipf_writes; reflexivity
   | |- all_ipf (_ ++ _) => apply all_ipf_app
   | |- all_ipf (_ :: _) => apply all_ipf_cons
@@ -1045,7 +1171,7 @@ Ltac ipf_solve :=
 
 Theorem no_in_place_write s o : all_ipf (steps s o).
 Proof.
-  unfold op_steps. destruct o as [d cont man|d r|r|d|]; cbn [op_mem].
+  unfold op_steps. destruct o as [d cont man|d r|r|d| |live]; cbn [op_mem].
   - destruct (exists_file (sfs s) (FBlob d)); [apply all_ipf_nil|].
     destruct (H cont =? d); cbn [negb]; destruct man; ipf_solve.
   - destruct (exists_file (sfs s) (FBlob d)); ipf_solve.
@@ -1053,6 +1179,249 @@ Proof.
   - destruct (existsb (fun e => snd e =? d) (stags s) || memN d (sdigs s));
       destruct (exists_file (sfs s) (FBlob d)); ipf_solve.
   - ipf_solve.
+  - ipf_solve.
+Qed.
+
+(* ---------- one API call = several primitive operations in a row (Delete+AutoGC, GC) ---------- *)
+(* a cut of the concatenated micro-steps is a cut of ONE of the primitives, taken in the
+   quiescent state the earlier primitives of the same call left behind *)
+Lemma sfs_run_op s o : sfs (runop s o) = apply (steps s o) (sfs s).
+Proof. unfold run_op. destruct (op_mem H s o). reflexivity. Qed.
+
+Lemma seq_cut os : forall s k,
+  (exists pre o post k',
+     os = pre ++ o :: post /\
+     crash_seq H shuffle false false s os k
+       = crash_fs H shuffle false false (run H shuffle false false pre s) o k') \/
+  crash_seq H shuffle false false s os k = sfs (run H shuffle false false os s).
+Proof.
+  induction os as [|o os IH]; intros s k.
+  - right. unfold crash_seq. cbn. now rewrite firstn_nil.
+  - unfold crash_seq. cbn [steps_seq].
+    destruct (firstn_app_cases k (steps s o) (steps_seq H shuffle false false (runop s o) os)) as [[E _]|(k' & E)].
+    + left. exists [], o, os, k. split; [reflexivity|]. rewrite E. reflexivity.
+    + rewrite E, apply_app.
+      rewrite <- sfs_run_op.
+      destruct (IH (runop s o) k') as [(pre & o' & post & k'' & Eq & Ec)|Ef].
+      * left. exists (o :: pre), o', post, k''. split; [now rewrite Eq|].
+        unfold crash_seq in Ec. rewrite Ec. reflexivity.
+      * right. unfold crash_seq in Ef. rewrite Ef. reflexivity.
+Qed.
+
+Lemma inv_runc_app (h : list hop) pre :
+  Inv (run H shuffle false false pre (runc H shuffle false false h init)).
+Proof. apply inv_run. apply inv_runc. apply inv_init. Qed.
+
+(* every cut of a composite call, after any history with earlier crashes: the directory is
+   a crash state of one primitive [o] of the call, between the quiescent states before and
+   after [o]; both are reached by completed primitives only *)
+Theorem crash_safe_composite (h : list hop) (os : list op) k :
+  let s := runc H shuffle false false h init in
+  let fsk := crash_seq H shuffle false false s os k in
+  (exists pre o post,
+     os = pre ++ o :: post /\
+     let sj := run H shuffle false false pre s in
+     Recoverable H (sfs sj) fsk (sfs (run_op H shuffle false false sj o))) \/
+  (fsk = sfs (run H shuffle false false os s) /\ Good fsk).
+Proof.
+  intros s fsk. destruct (seq_cut os s k) as [(pre & o & post & k' & Eq & Ec)|Ef].
+  - left. exists pre, o, post. split; [exact Eq|]. cbn zeta. unfold fsk. rewrite Ec.
+    apply op_safe. apply inv_runc_app.
+  - right. split; [exact Ef|]. unfold fsk. rewrite Ef. apply inv_good.
+    exact (inv_runc_app h os).
+Qed.
+
+(* whatever the cut of a composite call: the static part of the property *)
+Corollary crash_composite_good (h : list hop) (os : list op) k :
+  Good (crash_seq H shuffle false false (runc H shuffle false false h init) os k).
+Proof.
+  destruct (crash_safe_composite h os k) as [(pre & o & post & _ & (L & B & Ix & _))|[_ G]].
+  - exact (conj L (conj B Ix)).
+  - exact G.
+Qed.
+
+(* ---------- initialisation: a crash during the first oci.New is repaired by the next one ---------- *)
+Lemma shuffle_nil c : shuffle c [] = [].
+Proof.
+  destruct (shuffle c []) as [|e l] eqn:E; [reflexivity|]. exfalso.
+  apply (shuffle_In c [] e). rewrite E. now left.
+Qed.
+
+Lemma new_steps_eq li fs c :
+  new_steps shuffle false li fs c =
+  (if dirs fs DBlobs then [] else [Mkdir DBlobs]) ++
+  (if exists_file fs FLayout then [] else layout_steps li c) ++
+  (if exists_file fs FIndex then []
+   else [Create (FIndexTmp c); Write (FIndexTmp c) (AIndex []); Close (FIndexTmp c);
+         Rename (FIndexTmp c) FIndex]).
+Proof. unfold new_steps, index_steps. cbn [save map filter app]. now rewrite shuffle_nil. Qed.
+
+(* the first New is cut anywhere; the second New runs to completion *)
+Theorem init_restartable k :
+  let fsk := apply (firstn k (new_steps shuffle false false empty_fs 0)) empty_fs in
+  let fs2 := apply (new_steps shuffle false false fsk 1) fsk in
+  new_okb fsk = true /\
+  layout_okb fs2 = true /\ read_index fs2 = Some [] /\ dirs fs2 DBlobs = true /\
+  forall d, files fs2 (FBlob d) = None.
+Proof.
+  cbn zeta. rewrite !new_steps_eq.
+  do 9 (destruct k as [|k]; [vm_compute; repeat split; reflexivity|]).
+  destruct k; vm_compute; repeat split; reflexivity.
+Qed.
+
+(* ---------- calls that only remove (Delete cascades, GC): blobs lie between start and end ---------- *)
+Definition shrinking (o : op) : Prop :=
+  match o with Delete _ | Forget _ | SaveIndex => True | _ => False end.
+
+Lemma shrinking_step s o d :
+  Inv s -> shrinking o -> has (sfs (runop s o)) (FBlob d) -> has (sfs s) (FBlob d).
+Proof.
+  intros I Ho Hh. destruct (op_safe s o I) as (_ & _ & E & _).
+  assert (X : exists_file (sfs (runop s o)) (FBlob d) = true).
+  { unfold exists_file, has in *. destruct (files (sfs (runop s o)) (FBlob d)); [reflexivity|contradiction]. }
+  rewrite E in X. apply exists_file_true.
+  destruct o; try contradiction; cbn in X; try exact X.
+  destruct (d =? d0); [discriminate|exact X].
+Qed.
+
+Lemma shrinking_run os : forall s d,
+  Inv s -> (forall o, In o os -> shrinking o) ->
+  has (sfs (run H shuffle false false os s)) (FBlob d) -> has (sfs s) (FBlob d).
+Proof.
+  induction os as [|o os IH]; intros s d I Hs Hh; [exact Hh|].
+  cbn [run fold_left] in Hh.
+  apply (shrinking_step s o d I (Hs o (or_introl eq_refl))).
+  apply IH; [now apply op_safe|intros o' Hin; apply Hs; now right|exact Hh].
+Qed.
+
+Theorem crash_shrinking_between (h : list hop) (os : list op) k :
+  (forall o, In o os -> shrinking o) ->
+  let s := runc H shuffle false false h init in
+  let fsk := crash_seq H shuffle false false s os k in
+  let fs1 := sfs (run H shuffle false false os s) in
+  (forall d, has (sfs s) (FBlob d) -> has fs1 (FBlob d) -> has fsk (FBlob d)) /\
+  (forall d, has fsk (FBlob d) -> has (sfs s) (FBlob d)).
+Proof.
+  intros Hs s fsk fs1. subst fsk fs1.
+  assert (I : Inv s) by (apply inv_runc; apply inv_init).
+  pose proof (crash_safe_composite h os k) as C. cbn zeta in C. fold s in C.
+  set (fsk := crash_seq H shuffle false false s os k) in *.
+  set (fs1 := sfs (run H shuffle false false os s)) in *.
+  destruct C as [(pre & o & post & Eq & R)|[Ef _]].
+  - cbn zeta in R.
+    set (sj := run H shuffle false false pre s) in *.
+    assert (Ij : Inv sj) by (apply inv_run; exact I).
+    assert (Hpre : forall o', In o' pre -> shrinking o').
+    { intros o' Hin. apply Hs. rewrite Eq. apply in_or_app. now left. }
+    assert (Ho : shrinking o). { apply Hs. rewrite Eq. apply in_or_app. right. now left. }
+    assert (Hpost : forall o', In o' post -> shrinking o').
+    { intros o' Hin. apply Hs. rewrite Eq. apply in_or_app. right. now right. }
+    assert (E1 : fs1 = sfs (run H shuffle false false post (runop sj o))).
+    { unfold fs1. rewrite Eq. unfold run. rewrite fold_left_app. reflexivity. }
+    destruct R as (_ & _ & _ & _ & P1 & P2). split.
+    + intros d H0 H1. apply P1.
+      * (* present at the end => present at every earlier quiescent state *)
+        rewrite E1 in H1.
+        apply (shrinking_step sj o d Ij Ho).
+        apply (shrinking_run post (runop sj o) d); [now apply op_safe|exact Hpost|exact H1].
+      * rewrite E1 in H1.
+        apply (shrinking_run post (runop sj o) d); [now apply op_safe|exact Hpost|exact H1].
+    + intros d Hk. apply P2 in Hk as [Hk|Hk].
+      * apply (shrinking_run pre s d I Hpre Hk).
+      * apply (shrinking_run pre s d I Hpre). apply (shrinking_step sj o d Ij Ho Hk).
+  - split.
+    + intros d _ H1. rewrite Ef. exact H1.
+    + intros d Hk. rewrite Ef in Hk. apply (shrinking_run os s d I Hs Hk).
+Qed.
+
+(* ---------- Delete with AutoGC: the tag mapping is the one before or the one after the call ---------- *)
+Lemma same_tags_of_inv s s' :
+  Inv s -> Inv s' -> (forall r n, In (r, n) (stags s) <-> In (r, n) (stags s')) ->
+  same_tags (sfs s) (sfs s').
+Proof.
+  intros I I' E. destruct (inv_named s I) as (l & Hl & Hn). destruct (inv_named s' I') as (l' & Hl' & Hn').
+  exists l, l'. split; [exact Hl|split; [exact Hl'|]]. intros r n. unfold tag_of.
+  rewrite Hn, Hn'. apply E.
+Qed.
+
+Lemma same_tags_trans a c e : same_tags a c -> same_tags c e -> same_tags a e.
+Proof.
+  intros (l1 & l2 & H1 & H2 & E1) (l2' & l3 & H2' & H3 & E2).
+  rewrite H2 in H2'. injection H2' as <-.
+  exists l1, l3. split; [exact H1|split; [exact H3|]]. intros r n. rewrite E1. apply E2.
+Qed.
+
+Definition untagged_delete (tags : list (N * N)) (o : op) : Prop :=
+  exists x, o = Delete x /\ forall r, ~ In (r, x) tags.
+
+Lemma untagged_delete_tags s o : untagged_delete (stags s) o -> stags (runop s o) = stags s.
+Proof.
+  intros (x & -> & Hx). unfold run_op. cbn [op_mem stags].
+  apply filter_all_true. intros [r n] Hin. cbn. apply negb_true_iff. apply N.eqb_neq.
+  intros ->. exact (Hx r Hin).
+Qed.
+
+Lemma untagged_deletes_tags os : forall s,
+  (forall o, In o os -> untagged_delete (stags s) o) ->
+  stags (run H shuffle false false os s) = stags s.
+Proof.
+  induction os as [|o os IH]; intros s Ho; [reflexivity|].
+  change (run H shuffle false false (o :: os) s) with (run H shuffle false false os (runop s o)).
+  assert (E : stags (runop s o) = stags s) by (apply untagged_delete_tags; apply Ho; now left).
+  rewrite IH; [exact E|]. intros o' Hin. rewrite E. apply Ho. now right.
+Qed.
+
+Theorem cascade_tags (h : list hop) d xs k :
+  let s := runc H shuffle false false h init in
+  (forall l, read_index (sfs s) = Some l -> forall x r, In x xs -> ~ tag_of l r x) ->
+  let os := Delete d :: map Delete xs in
+  let fsk := crash_seq H shuffle false false s os k in
+  same_tags fsk (sfs s) \/ same_tags fsk (sfs (run H shuffle false false os s)).
+Proof.
+  intros s Hun os fsk.
+  assert (I : Inv s) by (apply inv_runc; apply inv_init).
+  set (s1 := runop s (Delete d)).
+  assert (I1 : Inv s1) by (now apply op_safe).
+  (* nothing in the tail of the cascade carries a name, before and after the head is deleted *)
+  assert (Hun0 : forall x r, In x xs -> ~ In (r, x) (stags s)).
+  { intros x r Hin Ht. destruct (inv_named s I) as (l & Hl & Hn).
+    apply (Hun l Hl x r Hin). unfold tag_of. now apply Hn. }
+  assert (Hun1 : forall o, In o (map Delete xs) -> untagged_delete (stags s1) o).
+  { intros o Hin. apply in_map_iff in Hin as (x & <- & Hin). exists x. split; [reflexivity|].
+    intros r Ht. unfold s1, run_op in Ht. cbn [op_mem stags] in Ht.
+    apply filter_In in Ht as [Ht _]. exact (Hun0 x r Hin Ht). }
+  assert (Hsub : forall ps, (forall o, In o ps -> In o (map Delete xs)) ->
+                  stags (run H shuffle false false ps s1) = stags s1).
+  { intros ps Hps. apply untagged_deletes_tags. intros o Hin. apply Hun1. now apply Hps. }
+  set (sn := run H shuffle false false os s).
+  assert (En : stags sn = stags s1).
+  { unfold sn, os. cbn [run fold_left]. apply Hsub. auto. }
+  assert (In_ : Inv sn) by (unfold sn; apply inv_run; exact I).
+  assert (S1n : forall sj, Inv sj -> stags sj = stags s1 -> same_tags (sfs sj) (sfs sn)).
+  { intros sj Ij Ej. apply same_tags_of_inv; [exact Ij|exact In_|]. intros r n. now rewrite Ej, En. }
+  pose proof (crash_safe_composite h os k) as C. cbn zeta in C. fold s in C. fold fsk in C. fold sn in C.
+  destruct C as [(pre & o & post & Eq & R)|[Ef G]].
+  - cbn zeta in R. apply rec_same_tags in R.
+    destruct pre as [|p0 pre].
+    + cbn [app] in Eq. unfold os in Eq. injection Eq as <- _. cbn [run fold_left] in R. fold s1 in R.
+      destruct R as [R|R]; [now left|right].
+      apply (same_tags_trans _ _ _ R). apply S1n; [exact I1|reflexivity].
+    + right. cbn [app] in Eq. unfold os in Eq. injection Eq as <- Eq.
+      cbn [run fold_left] in R. fold s1 in R.
+      assert (Hpre : forall o', In o' pre -> In o' (map Delete xs)).
+      { intros o' Hin. rewrite Eq. apply in_or_app. now left. }
+      assert (Ho : In o (map Delete xs)) by (rewrite Eq; apply in_or_app; right; now left).
+      set (sj := run H shuffle false false pre s1) in *.
+      assert (Ij : Inv sj) by (apply inv_run; exact I1).
+      assert (Ej : stags sj = stags s1) by (apply Hsub; exact Hpre).
+      destruct R as [R|R]; apply (same_tags_trans _ _ _ R).
+      * apply S1n; [exact Ij|exact Ej].
+      * apply S1n; [now apply op_safe|].
+        assert (Eo : stags (runop sj o) = stags sj).
+        { apply untagged_delete_tags. rewrite Ej. now apply Hun1. }
+        exact (eq_trans Eo Ej).
+  - right. rewrite Ef. destruct G as (_ & _ & (l & Hl & _)). fold sn in Hl. rewrite Ef in Hl.
+    exists l, l. repeat split; auto.
 Qed.
 
 End Crash.
@@ -1095,6 +1464,9 @@ Lemma src_unlink_first_false : src_unlink_first = false.
 Proof. vm_compute. reflexivity. Qed.
 
 Lemma src_push_order : src_push_order_ok = true.
+Proof. vm_compute. reflexivity. Qed.
+
+Lemma src_gc_order : src_gc_order_ok = true.
 Proof. vm_compute. reflexivity. Qed.
 
 Theorem crash_safe_src :
@@ -1147,4 +1519,61 @@ Proof.
   rewrite src_inplace_false, src_unlink_first_false.
   intros H shuffle s o m Hin. exact (no_in_place_write H shuffle s o m Hin).
 Qed.
+
+Theorem crash_safe_composite_src :
+  forall (H : list N -> N) (shuffle : nat -> list entry -> list entry),
+    (forall c l e, In e (shuffle c l) <-> In e l) ->
+    forall (h : list hop) (os : list op) (k : nat),
+      let s := runc H shuffle src_inplace src_unlink_first h init in
+      let fsk := crash_seq H shuffle src_inplace src_unlink_first s os k in
+      (exists pre o post,
+         os = pre ++ o :: post /\
+         let sj := run H shuffle src_inplace src_unlink_first pre s in
+         Recoverable H (sfs sj) fsk (sfs (run_op H shuffle src_inplace src_unlink_first sj o))) \/
+      (fsk = sfs (run H shuffle src_inplace src_unlink_first os s) /\
+       layout_ok fsk /\ blob_ok H fsk /\ index_ok fsk).
+Proof. rewrite src_inplace_false, src_unlink_first_false. exact crash_safe_composite. Qed.
+
+(* oci-layout written in place (the code before the repair): cut after open(O_TRUNC) and
+   every later New fails on the empty oci-layout *)
+Lemma init_unrestartable_inplace (shuffle : nat -> list entry -> list entry) :
+  exists k, new_okb (apply (firstn k (new_steps shuffle false true empty_fs 0)) empty_fs) = false.
+Proof. exists 2%nat. reflexivity. Qed.
+
+Lemma src_layout_inplace_false : src_layout_inplace = false.
+Proof. vm_compute. reflexivity. Qed.
+
+Theorem init_restartable_src :
+  forall (shuffle : nat -> list entry -> list entry),
+    (forall c l e, In e (shuffle c l) <-> In e l) ->
+    forall k,
+      let fsk := apply (firstn k (new_steps shuffle src_inplace src_layout_inplace empty_fs 0)) empty_fs in
+      let fs2 := apply (new_steps shuffle src_inplace src_layout_inplace fsk 1) fsk in
+      new_okb fsk = true /\
+      layout_okb fs2 = true /\ read_index fs2 = Some [] /\ dirs fs2 DBlobs = true /\
+      forall d, files fs2 (FBlob d) = None.
+Proof. rewrite src_inplace_false, src_layout_inplace_false. exact init_restartable. Qed.
+
+Theorem crash_shrinking_between_src :
+  forall (H : list N -> N) (shuffle : nat -> list entry -> list entry),
+    (forall c l e, In e (shuffle c l) <-> In e l) ->
+    forall (h : list hop) (os : list op) (k : nat),
+      (forall o, In o os -> match o with Delete _ | Forget _ | SaveIndex => True | _ => False end) ->
+      let s := runc H shuffle src_inplace src_unlink_first h init in
+      let fsk := crash_seq H shuffle src_inplace src_unlink_first s os k in
+      let fs1 := sfs (run H shuffle src_inplace src_unlink_first os s) in
+      (forall d, has (sfs s) (FBlob d) -> has fs1 (FBlob d) -> has fsk (FBlob d)) /\
+      (forall d, has fsk (FBlob d) -> has (sfs s) (FBlob d)).
+Proof. rewrite src_inplace_false, src_unlink_first_false. exact crash_shrinking_between. Qed.
+
+Theorem cascade_tags_src :
+  forall (H : list N -> N) (shuffle : nat -> list entry -> list entry),
+    (forall c l e, In e (shuffle c l) <-> In e l) ->
+    forall (h : list hop) (d : N) (xs : list N) (k : nat),
+      let s := runc H shuffle src_inplace src_unlink_first h init in
+      (forall l, read_index (sfs s) = Some l -> forall x r, In x xs -> ~ tag_of l r x) ->
+      let os := Delete d :: map Delete xs in
+      let fsk := crash_seq H shuffle src_inplace src_unlink_first s os k in
+      same_tags fsk (sfs s) \/ same_tags fsk (sfs (run H shuffle src_inplace src_unlink_first os s)).
+Proof. rewrite src_inplace_false, src_unlink_first_false. exact cascade_tags. Qed.
 
